@@ -207,17 +207,18 @@ Section EncodedStream.
   Variable qlpc : N -> N -> qparams.
   Variable md5 : list N -> list N.
 
-  Theorem encoded_stream_parses_back cfg rate channels bps bs samples s bytes (total : nat) :
-    encode_stream ent qlpc md5 cfg rate channels bps bs samples = Ok s -> stream_bytes s = Ok bytes ->
+  Lemma encoded_stream_canon cfg rate channels bps bs samples s (total : nat) :
+    encode_stream ent qlpc md5 cfg rate channels bps bs samples = Ok s ->
     cfg_max_parameter cfg <= 14 -> In bps [8; 12; 16; 20; 24] -> rate <= 96000 -> 1 <= channels <= 8 ->
     1 <= bs <= c_MAX_BLOCK_SIZE ->
     length samples = (total * N.to_nat channels)%nat -> N.of_nat total < 2 ^ 36 ->
     length (md5 (md5_input bps samples)) = 16%nat -> Forall lt256 (md5 (md5_input bps samples)) ->
     (forall j b, nth_error (chunks (N.to_nat (bs * channels)) samples) j = Some b ->
                  block_hyps qlpc cfg (N.of_nat j) channels bps b (length b / N.to_nat channels)) ->
-    parse_stream bytes = Some s.
+    info_canon (s_info s) /\ Forall meta_ok (s_meta s) /\ si_bps (s_info s) <= c_MAX_BITS_PER_SAMPLE /\
+    Forall (frame_canon (si_channels (s_info s)) (si_bps (s_info s))) (s_frames s).
   Proof.
-    intros E Eb Hmp Hbps Hrate Hch Hbs Hlen Htot Hml Hm256 Hblocks.
+    intros E Hmp Hbps Hrate Hch Hbs Hlen Htot Hml Hm256 Hblocks.
     pose proof (streaminfo_of_encoded ent qlpc md5 cfg rate channels bps bs samples s E) as Hsi. cbv zeta in Hsi.
     destruct Hsi as (Sr & Sc & Sb & St & Sm & Smax & Smin & Sfr).
     set (c := N.to_nat channels) in *. set (bsn := N.to_nat bs).
@@ -240,7 +241,7 @@ Section EncodedStream.
     clear E.
     assert (Htotal : si_total (s_info s) = N.of_nat total).
     { rewrite St, Hlen, Nat2N.inj_mul. unfold c. rewrite N2Nat.id. apply N.div_mul. lia. }
-    apply stream_parses_back; try assumption.
+    split; [|split; [|split]].
     - change c_MAX_BLOCK_SIZE with 32767 in Hbs. constructor.
       + right. rewrite Smin, Smax. lia.
       + rewrite Hfr in Sfr. destruct frames as [|f0 fr] eqn:Efr.
@@ -259,6 +260,22 @@ Section EncodedStream.
     - rewrite Hmt. constructor.
     - rewrite Sb. change c_MAX_BITS_PER_SAMPLE with 24. cbn [In] in Hbps. destruct Hbps as [<-|[<-|[<-|[<-|[<-|[]]]]]]; lia.
     - rewrite Sc, Sb, Hfr. eapply Forall_impl; [|exact Hcanon]. intros f [A _]. exact A.
+  Qed.
+
+  Theorem encoded_stream_parses_back cfg rate channels bps bs samples s bytes (total : nat) :
+    encode_stream ent qlpc md5 cfg rate channels bps bs samples = Ok s -> stream_bytes s = Ok bytes ->
+    cfg_max_parameter cfg <= 14 -> In bps [8; 12; 16; 20; 24] -> rate <= 96000 -> 1 <= channels <= 8 ->
+    1 <= bs <= c_MAX_BLOCK_SIZE ->
+    length samples = (total * N.to_nat channels)%nat -> N.of_nat total < 2 ^ 36 ->
+    length (md5 (md5_input bps samples)) = 16%nat -> Forall lt256 (md5 (md5_input bps samples)) ->
+    (forall j b, nth_error (chunks (N.to_nat (bs * channels)) samples) j = Some b ->
+                 block_hyps qlpc cfg (N.of_nat j) channels bps b (length b / N.to_nat channels)) ->
+    parse_stream bytes = Some s.
+  Proof.
+    intros E Eb Hmp Hbps Hrate Hch Hbs Hlen Htot Hml Hm256 Hblocks.
+    destruct (encoded_stream_canon cfg rate channels bps bs samples s total E Hmp Hbps Hrate Hch Hbs Hlen Htot Hml Hm256 Hblocks)
+      as (A & B & C & D).
+    exact (stream_parses_back s bytes A B C D Eb).
   Qed.
 
   (* the tree the parser returns for an emitted stream (= the encoder's own, by the theorem above) verifies *)
